@@ -603,7 +603,7 @@ func propC15(w *World, r *Report) {
 	} else {
 		r.Unknown("A6", "throttle pass-through", "-", err.Error())
 	}
-	checkSettingsImmutable(w, r, "A1", "ThermalMotion", "Config") // dynamic-thresh, temp-thresh limits as configured
+	checkSettingsImmutable(w, r, "A1", "ThermalMotion:DynamicThreshold|TempThresh|TempThreshMin|TempThreshMax", "Config:Motion") // dynamic-thresh, temp-thresh limits as configured
 }
 
 func minInt(a, b int) int {
